@@ -1132,6 +1132,10 @@ class Unit:
             alt = self.spec.get(('call_as', self.cur, cn))
             if alt and not (base.get('kind') == 'CXXThisExpr' or self.strip(base).get('kind') == 'CXXThisExpr'):
                 self.used_keys.add(('call_as', self.cur, cn)); cn = alt
+            else:
+                # recursion on the same object with a structurally smaller ARGUMENT (a sub-document): child view by request of the spec
+                alt = self.spec.get(('call_as_this', self.cur, cn))
+                if alt: self.used_keys.add(('call_as_this', self.cur, cn)); cn = alt
             self.count_call(cn)
             fq = self.by_id[cid]['type']['qualType']
             call = '%s(%s)' % (cn, ', '.join([obj] + self.call_args(fq, ks[1:], callee=cid)))
